@@ -47,6 +47,7 @@ func (db *Database) SearchWithOptions(query string, options SearchOptions) []Sea
 	if options.Limit <= 0 {
 		options.Limit = constants.DefaultSearchLimit
 	}
+	options.Limit = capLimit(options.Limit, len(db.Commands))
 
 	queryWords := strings.Fields(strings.ToLower(query))
 	results := make([]SearchResult, 0, utils.Min(len(db.Commands), options.Limit*constants.ResultsBufferMultiplier))
@@ -71,6 +72,7 @@ func (db *Database) SearchWithPipelineOptions(query string, options SearchOption
 	if options.Limit <= 0 {
 		options.Limit = constants.DefaultSearchLimit
 	}
+	options.Limit = capLimit(options.Limit, len(db.Commands))
 
 	queryWords := strings.Fields(strings.ToLower(query))
 	results := make([]SearchResult, 0, utils.Min(len(db.Commands), options.Limit*constants.ResultsBufferMultiplier))
@@ -99,6 +101,19 @@ func (db *Database) SearchWithPipelineOptions(query string, options SearchOption
 	}
 
 	return db.sortAndLimitResults(results, options.Limit)
+}
+
+// capLimit bounds a positive limit by the number of commands n (no search can
+// return more), but never below 1, so that the Limit*k buffer sizes used by the
+// search functions cannot overflow for very large limits.
+func capLimit(limit, n int) int {
+	if n < 1 {
+		n = 1
+	}
+	if limit > n {
+		return n
+	}
+	return limit
 }
 
 // sortAndLimitResults sorts results by score and applies limit
@@ -499,6 +514,7 @@ func (db *Database) SearchWithFuzzy(query string, options SearchOptions) []Searc
 	if options.Limit <= 0 {
 		options.Limit = constants.DefaultSearchLimit
 	}
+	options.Limit = capLimit(options.Limit, len(db.Commands))
 
 	// First try exact search
 	exactOptions := options
